@@ -131,6 +131,11 @@ def analyze(ns):
     # ('Ignoring based on internal failed post condition').
     from crosshair import enforce as _enforce
     _enforce.EnforcedConditions.trace_call = lambda self, frame, fn, binding_target: None
+    # CrossHair runs gc.collect() on every weakref dereference (20 ms each; the executor's
+    # notify_update iterates a WeakSet constantly).  Harness objects keep their referents
+    # alive, so plain dereferencing is deterministic here.
+    import weakref as _weakref
+    _core._PATCH_REGISTRATIONS.pop(_weakref.ref.__call__, None)
     # Floats: bit-precise IEEE-754 binary64 only.  CrossHair's default also forks to a
     # real-number model whose paths it caps at 'unknown'; we never rely on it.
     from crosshair.libimpl import builtinslib as _bl
